@@ -104,6 +104,12 @@ def _fault_plan(rng, pop, faulty):
     plan = []
     kinds = ['drop_request', 'drop_response', 'late_response']
     for f in faulty:
+        if rng.random() < 0.25:
+            # slow or duplicated answers are not failures: nothing may change
+            plan.append({'kind': rng.choice(['delay', 'duplicate']),
+                         'device': f, 'request': '*',
+                         'occurrence': sorted(rng.sample(range(1, 15), 5)),
+                         'arg': rng.choice([0.05, 0.4, 0.8])})
         style = rng.choice(['silent_all', 'prefix', 'prefix', 'interval',
                             'scatter'])
         if style == 'silent_all':
@@ -533,9 +539,13 @@ def execute(scenario, chooser):
         probes['retry_exhausted'] = 1
     # abandoned requests leave a log entry (device that never answers)
     if sc['family'] == 'script':
+        softened = {r['device'] for r in sc['plan']
+                    if r['kind'] in ('delay', 'duplicate')}
         never = [r['device'] for r in sc['plan']
-                 if (r['kind'] == 'silent' and r.get('to', 0) >= 1e9)
-                 or (r.get('request') == '*' and r.get('occurrence') == '*')]
+                 if r['device'] not in softened and (
+                     (r['kind'] == 'silent' and r.get('to', 0) >= 1e9)
+                     or (r.get('request') == '*'
+                         and r.get('occurrence') == '*'))]
         abandoned = 0
         for f in never:
             for typ in ('LightGet', 'MultiZoneSetColorZones'):
